@@ -974,7 +974,14 @@ func c09Gen(kind string, seed int64, idx int) c09Value {
 		}
 		return c09Value{"Cap", kind, s2.CapFromCenterChordAngle(randPoint(), s1.ChordAngle(4*rnd.Float64()))}
 	case "rect":
-		switch idx % 5 {
+		switch idx % 6 {
+		case 4: // a point on the antimeridian whose longitude is exactly -Pi (atan2(-0, -x)): the library's own
+			// constructors keep -Pi there, and the wire form has to give the same bits back
+			z := 2*rnd.Float64() - 1
+			if idx%12 == 4 {
+				return c09Value{"Rect", kind, s2.RectFromLatLng(s2.LatLngFromPoint(s2.Point{Vector: r3.Vector{X: -1, Y: math.Copysign(0, -1), Z: z}}))}
+			}
+			return c09Value{"Rect", kind, s2.RectFromLatLng(s2.LatLng{Lat: s1.Angle(z * math.Pi / 2), Lng: -math.Pi})}
 		case 0:
 			return c09Value{"Rect", kind, s2.EmptyRect()}
 		case 1:
